@@ -2833,6 +2833,7 @@ int errBoundMode, double absErr_Bound, double relBoundRatio, double pwRelBoundRa
 	bool positive = true;
 	float nearZero = 0.0;
 	float min = 0;
+	int accelerate_configured = confparams_cpr->accelerate_pw_rel_compression; //restored on return: the setting belongs to the configuration, not to this call
 	if(pwRelBoundRatio < 0.000009999)
 		confparams_cpr->accelerate_pw_rel_compression = 0;
 	if(confparams_cpr->errorBoundMode == PW_REL && confparams_cpr->accelerate_pw_rel_compression)
@@ -3026,6 +3027,7 @@ int errBoundMode, double absErr_Bound, double relBoundRatio, double pwRelBoundRa
 			status = SZ_DERR; //dimension error
 			*newByteData = NULL; //no stream is produced: nothing must be wrapped or returned
 			*outSize = 0;
+			confparams_cpr->accelerate_pw_rel_compression = accelerate_configured;
 			return status;
 		}
 		//Call Zstd or Gzip to do the further compression.
@@ -3049,6 +3051,7 @@ int errBoundMode, double absErr_Bound, double relBoundRatio, double pwRelBoundRa
 		}
 	}
 
+	confparams_cpr->accelerate_pw_rel_compression = accelerate_configured;
 	return status;
 }
 
